@@ -22,7 +22,7 @@ from . import key_driver as kd
 NOTOL = 99
 ALL_FLOATS = set(range(1, 17))
 ALL_OTHERS = {21, 22, 23, 24, 25, 26, 27, 28, 29, 30}
-ALL_SHAPES = set(range(1, 26))
+ALL_SHAPES = set(range(1, 27))
 ALIAS_SHAPES = {22, 23}        # calls that contain equal containers: also made with ONE shared object in their place
 # per tolerance: floats that merge / tie at that tolerance, and a few non-floats (quick tier)
 QUICK_ALPHA = {
@@ -167,6 +167,8 @@ def _build(n, memo=None):
         for it in n['c']:
             k = STR[it['v']] if it['d'] == 1 else int(it['v'])
             d[k] = build(it['c'][0], memo)
+        if t == 'dict' and n.get('v') == 1:
+            return collections.defaultdict(float, d)
         return collections.ChainMap(d) if t == 'cmap' else d
     raise ValueError(n)
 
@@ -220,7 +222,7 @@ def describe(x):
         n = describe(x.maps[0])
         n['t'] = 'cmap'
         return n
-    if type(x) is dict:
+    if type(x) in (dict, collections.defaultdict):
         items = []
         for k, v in x.items():
             if isinstance(k, str) and k in RSTR:
@@ -229,7 +231,7 @@ def describe(x):
                 items.append({'t': 'item', 'v': k, 'd': 2, 'c': [describe(v)]})
             else:
                 items.append({'t': 'item', 'v': 997, 'd': 3, 'c': [describe(v)]})
-        return {'t': 'dict', 'v': 0, 'd': 1, 'c': items}
+        return {'t': 'dict', 'v': 1 if type(x) is collections.defaultdict else 0, 'd': 1, 'c': items}
     return leaf('other', 0)
 
 
